@@ -114,7 +114,7 @@ def ablate(model, X, start, end, n=20, shuffle_fn=shuffle, args=None,
 		those.
 	"""
 
-	additional_func_kwargs = additional_func_kwargs or {}
+	additional_func_kwargs = dict(additional_func_kwargs or {})
 	if 'random_state' in inspect.signature(func).parameters.keys():
 		if 'random_state' not in additional_func_kwargs:
 			additional_func_kwargs['random_state'] = random_state
